@@ -1,4 +1,5 @@
 import PetgraphModel.Proofs.Graph
+import PetgraphModel.Spec.CompactGraphAccepts
 /-
 Refinement of the mirror model to the compact-multigraph specification for histories without
 removals (stage 1): there the insertion stamp of an edge is its index, every `next` pointer points
@@ -574,7 +575,6 @@ theorem Inv1.neighborsDirected_eq {s : State} (h : Inv1 s) (a : Nat) (k : Bool) 
         rw [hfil, in_part hs1, hm1]
         simp
 
-def toERef (r : CGS.Ref) : ERef := ⟨r.ix, r.src, r.tgt, r.weight⟩
 
 theorem refs_plain {s : State} {c : List (Nat × Edge)} (hs : ∀ p ∈ c, s.edges[p.1]? = some p.2) :
     c.map (mkRef false) = (c.map Prod.fst).map fun e =>
@@ -894,17 +894,6 @@ theorem abs_extendWithEdges : ∀ (l : List (Nat × Nat × Nat)) (s : State), In
         rw [hsp] at h2
         cases e <;> simp only at h2 <;> simp only [h2] <;> (constructor <;> first | rfl | trivial)
 
-/-- `from_elements` on the specification -/
-def specFromElements (sp : CGS.Spec) : List Elem → Option CGS.Spec
-  | [] => some sp
-  | .node w :: rest =>
-    match CGS.addNode sp w with
-    | some sp' => specFromElements sp' rest
-    | none => none
-  | .edge a b w :: rest =>
-    match CGS.addEdge sp a b w with
-    | .ok sp' => specFromElements sp' rest
-    | .error _ => none
 
 theorem abs_fromElements : ∀ (l : List Elem) (s : State), Inv s →
     (fromElements s l).map abs = specFromElements (abs s) l := by
@@ -939,12 +928,6 @@ theorem abs_fromElements : ∀ (l : List Elem) (s : State), Inv s →
         rw [hsp] at h1
         cases e <;> simp only at h1 <;> simp only [h1] <;> rfl
 
-def spSetNode (sp : CGS.Spec) (a w : Nat) : CGS.Spec := { sp with nodes := sp.nodes.set a w }
-def spSetEdge (sp : CGS.Spec) (e w : Nat) : CGS.Spec :=
-  { sp with edges := sp.edges.set e { CGS.edgeAt sp e with weight := w } }
-def spPut (sp : CGS.Spec) (k : Bool) (x w : Nat) : CGS.Spec := if k then spSetEdge sp x w else spSetNode sp x w
-def spInBounds (sp : CGS.Spec) (k : Bool) (x : Nat) : Bool :=
-  if k then x < sp.edges.length else x < sp.nodes.length
 
 theorem abs_setNodeWeight {s : State} {a : Nat} {nd : Node} (hnd : s.nodes[a]? = some nd) (w : Nat) :
     abs { s with nodes := s.nodes.set a { nd with weight := w } } = spSetNode (abs s) a w := by
@@ -1050,135 +1033,15 @@ theorem abs_bumpEdges (s : State) (d : Nat) :
 
 /-! ### the abstract transition relation and the refinement step -/
 
-/-- order-sensitive or multiset comparison, as the property prescribes -/
-def ListAcc {α : Type} (ordered : Bool) (l want : List α) : Prop := if ordered then l = want else l.Perm want
 
 theorem ListAcc.of_eq {α : Type} (ordered : Bool) {l want : List α} (h : l = want) : ListAcc ordered l want := by
   unfold ListAcc; split
   · exact h
   · rw [h]
 
-def spAllRefs (sp : CGS.Spec) : List ERef :=
-  (List.range sp.edges.length).zipWith (fun i (ed : CGS.SEdge) => (⟨i, ed.src, ed.tgt, ed.weight⟩ : ERef)) sp.edges
 
-/-- answer and effect of `add_edge` (`isTry = false`) / `try_add_edge` on the specification -/
-def AddEdgeAcc (sp : CGS.Spec) (isTry : Bool) (a b w : Nat) (o : Out) (sp' : CGS.Spec) : Prop :=
-  match CGS.addEdge sp a b w with
-  | .ok g => o = (if isTry then .res (.ok sp.edges.length) else .nat sp.edges.length) ∧ sp' = g
-  | .error e =>
-    sp' = sp ∧
-    (if isTry then
-      match e with
-      | .limit => o = .res (.error .edgeIxLimit)
-      | .absent => o = .res (.error .nodeOutBounds)
-      | .both => ∃ x, o = .res (.error x)
-    else o = .panic)
 
-/-- `update_edge`: some edge joining `a` to `b` gets the weight (which one among parallel edges is
-not specified); otherwise as `add_edge` -/
-def UpdateEdgeAcc (sp : CGS.Spec) (isTry : Bool) (a b w : Nat) (o : Out) (sp' : CGS.Spec) : Prop :=
-  if CGS.hasEdge sp a b then
-    ∃ e, o = (if isTry then .res (.ok e) else .nat e) ∧ e < sp.edges.length ∧
-      CGS.connects sp a b (CGS.edgeAt sp e) = true ∧ sp' = spSetEdge sp e w
-  else AddEdgeAcc sp isTry a b w o sp'
 
-/-- The specification as a transition relation: `SpecAccepts sp op o sp'` — on the plain multigraph
-`sp` the call `op` may answer `o` and lead to `sp'`.  Deterministic except where the property leaves
-a choice (`find_edge`/`update_edge` among parallel edges, adjacency order of undirected graphs).
-`False` for the calls outside stage 1's core (removals, `retain_*`, `filter_map`, conversion, walkers
-and the two raw-chain accessors). -/
-def SpecAccepts (sp : CGS.Spec) : Op → Out → CGS.Spec → Prop
-  | .new d, o, sp' => o = .unit ∧ sp' = CGS.empty sp.cap d
-  | .fromEdges l, o, sp' =>
-    if (CGS.extendWithEdges (CGS.empty sp.cap sp.directed) l).2
-    then o = .unit ∧ sp' = (CGS.extendWithEdges (CGS.empty sp.cap sp.directed) l).1
-    else o = .panic ∧ sp' = sp
-  | .fromElements l, o, sp' =>
-    match specFromElements (CGS.empty sp.cap sp.directed) l with
-    | some g => o = .unit ∧ sp' = g
-    | none => o = .panic ∧ sp' = sp
-  | .addNode w, o, sp' =>
-    match CGS.addNode sp w with
-    | some g => o = .nat sp.nodes.length ∧ sp' = g
-    | none => o = .panic ∧ sp' = sp
-  | .tryAddNode w, o, sp' =>
-    match CGS.addNode sp w with
-    | some g => o = .res (.ok sp.nodes.length) ∧ sp' = g
-    | none => o = .res (.error .nodeIxLimit) ∧ sp' = sp
-  | .addEdge a b w, o, sp' => AddEdgeAcc sp false a b w o sp'
-  | .tryAddEdge a b w, o, sp' => AddEdgeAcc sp true a b w o sp'
-  | .updateEdge a b w, o, sp' => UpdateEdgeAcc sp false a b w o sp'
-  | .tryUpdateEdge a b w, o, sp' => UpdateEdgeAcc sp true a b w o sp'
-  | .nodeWeightMut a w, o, sp' =>
-    match sp.nodes[a]? with
-    | some old => o = .optNat (some old) ∧ sp' = spSetNode sp a w
-    | none => o = .optNat none ∧ sp' = sp
-  | .edgeWeightMut e w, o, sp' =>
-    match sp.edges[e]? with
-    | some old => o = .optNat (some old.weight) ∧ sp' = spSetEdge sp e w
-    | none => o = .optNat none ∧ sp' = sp
-  | .indexMutNode a w, o, sp' =>
-    if a < sp.nodes.length then o = .unit ∧ sp' = spSetNode sp a w else o = .panic ∧ sp' = sp
-  | .indexMutEdge e w, o, sp' =>
-    if e < sp.edges.length then o = .unit ∧ sp' = spSetEdge sp e w else o = .panic ∧ sp' = sp
-  | .indexTwiceMut ki kj i j wi wj, o, sp' =>
-    if (ki ≠ kj ∨ i ≠ j) ∧ spInBounds sp ki i = true ∧ spInBounds sp kj j = true
-    then o = .unit ∧ sp' = spPut (spPut sp ki i wi) kj j wj
-    else o = .panic ∧ sp' = sp
-  | .bumpNodes d, o, sp' => o = .unit ∧ sp' = { sp with nodes := sp.nodes.map (· + d) }
-  | .bumpEdges d, o, sp' =>
-    o = .unit ∧ sp' = { sp with edges := sp.edges.map fun ed => { ed with weight := ed.weight + d } }
-  | .reverse, o, sp' => o = .unit ∧ sp' = CGS.reverse sp
-  | .clear, o, sp' => o = .unit ∧ sp' = CGS.clear sp
-  | .clearEdges, o, sp' => o = .unit ∧ sp' = CGS.clearEdges sp
-  | .extendWithEdges l, o, sp' =>
-    sp' = (CGS.extendWithEdges sp l).1 ∧ o = (if (CGS.extendWithEdges sp l).2 then .unit else .panic)
-  | .map dn de, o, sp' => o = .unit ∧ sp' = CGS.mapWeights sp dn de
-  | .intoEdgeType d, o, sp' => o = .unit ∧ sp' = { sp with directed := d }
-  | .clone, o, sp' => o = .unit ∧ sp' = sp
-  | .capacityOp, o, sp' => o = .unit ∧ sp' = sp
-  | .nodeCount, o, sp' => o = .nat sp.nodes.length ∧ sp' = sp
-  | .edgeCount, o, sp' => o = .nat sp.edges.length ∧ sp' = sp
-  | .isDirected, o, sp' => o = .bool sp.directed ∧ sp' = sp
-  | .nodeWeight a, o, sp' => o = .optNat sp.nodes[a]? ∧ sp' = sp
-  | .edgeWeight e, o, sp' => o = .optNat (sp.edges[e]?.map (·.weight)) ∧ sp' = sp
-  | .indexNode a, o, sp' =>
-    o = (match sp.nodes[a]? with | some w => .nat w | none => .panic) ∧ sp' = sp
-  | .indexEdge e, o, sp' =>
-    o = (match sp.edges[e]? with | some ed => .nat ed.weight | none => .panic) ∧ sp' = sp
-  | .edgeEndpoints e, o, sp' => o = .optPair (sp.edges[e]?.map fun ed => (ed.src, ed.tgt)) ∧ sp' = sp
-  | .findEdge a b, o, sp' =>
-    sp' = sp ∧ ((o = .optNat none ∧ CGS.hasEdge sp a b = false) ∨
-      ∃ e, o = .optNat (some e) ∧ e < sp.edges.length ∧ CGS.connects sp a b (CGS.edgeAt sp e) = true)
-  | .containsEdge a b, o, sp' => o = .bool (CGS.hasEdge sp a b) ∧ sp' = sp
-  | .findEdgeUndirected a b, o, sp' =>
-    sp' = sp ∧ ((o = .optEdgeDir none ∧ ∀ ed ∈ sp.edges, ¬ ((ed.src = a ∧ ed.tgt = b) ∨ (ed.src = b ∧ ed.tgt = a))) ∨
-      ∃ e k, o = .optEdgeDir (some (e, k)) ∧ e < sp.edges.length ∧
-        (if k then (CGS.edgeAt sp e).src = b ∧ (CGS.edgeAt sp e).tgt = a
-         else (CGS.edgeAt sp e).src = a ∧ (CGS.edgeAt sp e).tgt = b))
-  | .neighbors a, o, sp' =>
-    sp' = sp ∧ ∃ l, o = .nats l ∧ ListAcc (CGS.nbrOrdered sp 0) l ((CGS.nbr sp a 0).map (·.2))
-  | .neighborsDirected a k, o, sp' =>
-    sp' = sp ∧ ∃ l, o = .nats l ∧
-      ListAcc (CGS.nbrOrdered sp (if k then 1 else 0)) l ((CGS.nbr sp a (if k then 1 else 0)).map (·.2))
-  | .neighborsUndirected a, o, sp' =>
-    sp' = sp ∧ ∃ l, o = .nats l ∧ ListAcc false l ((CGS.nbr sp a 2).map (·.2))
-  | .edges a, o, sp' =>
-    sp' = sp ∧ ∃ l, o = .erefs l ∧ ListAcc sp.directed l ((CGS.refs sp a false).map toERef)
-  | .edgesDirected a k, o, sp' =>
-    sp' = sp ∧ ∃ l, o = .erefs l ∧ ListAcc sp.directed l ((CGS.refs sp a k).map toERef)
-  | .edgesConnecting a b, o, sp' =>
-    sp' = sp ∧ ∃ l, o = .erefs l ∧ ListAcc sp.directed l ((CGS.connecting sp a b).map toERef)
-  | .externals k, o, sp' => o = .nats (CGS.externals sp k) ∧ sp' = sp
-  | .nodeWeights, o, sp' => o = .nats sp.nodes ∧ sp' = sp
-  | .edgeRefs, o, sp' => o = .erefs (spAllRefs sp) ∧ sp' = sp
-  | _, _, _ => False
-
-/-- the calls `SpecAccepts` speaks about -/
-def isCore : Op → Bool
-  | .removeNode _ | .removeEdge _ | .retainNodes _ _ | .retainEdges _ _
-  | .filterMap .. | .rebuild | .walk .. | .firstEdge .. | .nextEdge .. => false
-  | _ => true
 
 /-- the answer of the `try_` (`isTry`) / panicking variant of an edge insertion -/
 def resOut (isTry : Bool) (r : Except GErr Nat) : Out :=
@@ -1566,11 +1429,6 @@ theorem specAccepts_no_fault {sp sp' : CGS.Spec} {op : Op} {f : Fault} : ¬ Spec
     rcases h2 with ⟨h2, _⟩ | ⟨e, k, h2, _⟩ <;> simp at h2
   all_goals (first | (obtain ⟨h1, _⟩ := h; simp at h1; done) | (obtain ⟨_, l, h1, _⟩ := h; simp at h1; done) | simp at h)
 
-/-- runs of the specification relation -/
-inductive SpecRun : CGS.Spec → List Op → List Out → CGS.Spec → Prop
-  | nil (sp : CGS.Spec) : SpecRun sp [] [] sp
-  | cons {sp sp1 sp2 : CGS.Spec} {op : Op} {o : Out} {ops : List Op} {os : List Out} :
-      SpecAccepts sp op o sp1 → SpecRun sp1 ops os sp2 → SpecRun sp (op :: ops) (o :: os) sp2
 
 theorem refines_run : ∀ (ops : List Op) (s : State), Inv1 s → (∀ op ∈ ops, isCore op = true) →
     Inv1 (run s ops).1 ∧ SpecRun (abs s) ops (run s ops).2 (abs (run s ops).1) := by
